@@ -12,6 +12,8 @@ E = "clematis/adapters/embeddings.py"
 ES = "clematis/engine/util/embed_store.py"
 Q = "clematis/engine/stages/t2/quality_ops.py"
 CASES = [
+    ("index-upsert-skips-version", "mutant", IX, "    def add(self, ep: Dict[str, Any]) -> None:\n        self._eps.append(ep)\n        self._ver += 1\n", "    def add(self, ep: Dict[str, Any]) -> None:\n        for j, old in enumerate(self._eps):\n            if old.get(\"id\") == ep.get(\"id\"):\n                self._eps[j] = ep\n                return\n        self._eps.append(ep)\n        self._ver += 1\n", "C01.CLOCK"),
+    ("index-upsert-bumps-version", "twin", IX, "    def add(self, ep: Dict[str, Any]) -> None:\n        self._eps.append(ep)\n        self._ver += 1\n", "    def add(self, ep: Dict[str, Any]) -> None:\n        for j, old in enumerate(self._eps):\n            if old.get(\"id\") == ep.get(\"id\"):\n                self._eps[j] = ep\n                self._ver += 1\n                return\n        self._eps.append(ep)\n        self._ver += 1\n", None),
     ("gel-meta-template-deepcopied", "twin", "clematis/engine/snapshot.py", [("SCHEMA_VERSION = \"v1\"  # snapshots written going forward should include this\n", "SCHEMA_VERSION = \"v1\"  # snapshots written going forward should include this\n_EMPTY_META_TPL = {\"schema\": \"v1.1\", \"merges\": [], \"splits\": [], \"promotions\": [], \"concept_nodes_count\": 0, \"edges_count\": 0}\n"),
       ("    _set_state_field(state, \"graph\", {\"nodes\": {}, \"edges\": {}, \"meta\": dict(empty_meta)})\n", "    import copy as _cp\n    _set_state_field(state, \"graph\", {\"nodes\": {}, \"edges\": {}, \"meta\": _cp.deepcopy(_EMPTY_META_TPL)})\n")], None, None),
     ("gel-meta-template-shallow", "mutant", "clematis/engine/snapshot.py", [("SCHEMA_VERSION = \"v1\"  # snapshots written going forward should include this\n", "SCHEMA_VERSION = \"v1\"  # snapshots written going forward should include this\n_EMPTY_META_TPL = {\"schema\": \"v1.1\", \"merges\": [], \"splits\": [], \"promotions\": [], \"concept_nodes_count\": 0, \"edges_count\": 0}\n"),
